@@ -75,6 +75,8 @@ func tblPeers(sec bool) map[string]peer {
 		}
 		add("n1", sim.UDP4(1, 0, 1, 1, 2001), sim.InBucket(sim.Root, 0, 101))
 		add("n2", sim.UDP4(1, 0, 1, 2, 2002), sim.InBucket(sim.Root, 0, 102))
+		// n1 again, its IPv4 address in 16-byte (IPv4-mapped) form: the same contact to the table
+		add("n1m", &net.UDPAddr{IP: net.IP{1, 0, 1, 1}.To16(), Port: 2001}, sim.InBucket(sim.Root, 0, 101))
 		add("c1", sim.UDP4(1, 0, 2, 1, 3001), sim.InBucket(sim.Root, 1, 1))
 		add("z9", sim.UDP4(1, 0, 3, 1, 3002), sim.InBucket(sim.Root, 159, 0))
 	} else {
@@ -870,6 +872,7 @@ func tblAlphabet(cfg tblCfg, core bool) []string {
 	} else {
 		add("Q:d1", "Q:d2", "P:d2:ok", "Q:a1", "Q:a2", "P:a2:ok", "A:a1")
 		add("Q:z9", "P:n1:as=@good", "P:n1:as=n2")
+		add("Q:n1m", "P:n1m:ok", "A:n1m")
 	}
 	return a
 }
